@@ -127,9 +127,61 @@ func genC10(t *rapid.T) Scenario {
 		if k == "shutdown" && rapid.IntRange(0, 2).Draw(t, "reallyShutdown") != 0 {
 			k = "wait"
 		}
-		op := HubOp{K: k, X: x, Y: y, WaitMs: rapid.SampledFrom([]int{0, 0, 20, 150, 400, 700, 1100, 1600}).Draw(t, "wait")}
+		op := HubOp{K: k, X: x, Y: y, WaitMs: rapid.SampledFrom([]int{0, 0, 20, 150, 400, 700, 1100, 1600}).Draw(t, "wait"),
+			Spell: rapid.SampledFrom([]int{0, 0, 0, 1, 2, 3}).Draw(t, "spell")}
 		sc.Ops = append(sc.Ops, op)
 	}
+	// stories: short op sequences for one pair that put an unregister/cancel between a register and a later mDNS appearance or dial
+	stories := [][]string{
+		{"register", "unregister", "appear"},
+		{"register", "cancel", "appear"},
+		{"appear", "register", "unregister", "disappear", "appear"},
+		{"register", "appear", "unregister", "wait", "wait"},
+		{"register", "appear", "cancel", "wait"},
+		// x asks y (y's user has not answered yet), x cancels, then y's user approves
+		{"register", "appear", "wait", "cancel", "peerRegister", "wait"},
+		{"appear", "register", "cancel", "wait", "peerRegister"},
+	}
+	for i, m := 0, rapid.IntRange(0, 2).Draw(t, "nStories"); i < m; i++ {
+		x := rapid.IntRange(0, 2).Draw(t, "sx")
+		y := (x + 1 + rapid.IntRange(0, 1).Draw(t, "sdy")) % 3
+		peerKnocks := rapid.Bool().Draw(t, "peerKnocks")
+		if peerKnocks {
+			sc.Ops = append(sc.Ops, HubOp{K: "register", X: y, Y: x}, HubOp{K: "appear", X: y, Y: x})
+		}
+		for _, k := range rapid.SampledFrom(stories).Draw(t, "story") {
+			if k == "peerRegister" {
+				sc.Ops = append(sc.Ops, HubOp{K: "register", X: y, Y: x, WaitMs: rapid.SampledFrom([]int{0, 300, 1200}).Draw(t, "pwait")})
+				continue
+			}
+			sc.Ops = append(sc.Ops, HubOp{K: k, X: x, Y: y, WaitMs: rapid.SampledFrom([]int{0, 50, 300, 900, 1500}).Draw(t, "swait"),
+				Spell: rapid.SampledFrom([]int{0, 0, 1, 2, 3}).Draw(t, "sspell")})
+		}
+	}
+	sc.Ops = append(sc.Ops, HubOp{K: "wait", WaitMs: 1200})
+	return sc
+}
+
+// genC11Hub: like genC10, plus transport cuts, so that connections end by several causes
+// (also after trust was withdrawn from a completed connection).
+func genC11Hub(t *rapid.T) Scenario {
+	sc := Scenario{N: 3, ZeroHigher: rapid.Bool().Draw(t, "zeroHigher")}
+	// a connected core
+	for _, p := range [][2]int{{0, 1}, {1, 0}, {1, 2}, {2, 1}} {
+		if rapid.IntRange(0, 4).Draw(t, "core") != 0 {
+			sc.Ops = append(sc.Ops, HubOp{K: "register", X: p[0], Y: p[1]}, HubOp{K: "appear", X: p[0], Y: p[1]})
+		}
+	}
+	sc.Ops = append(sc.Ops, HubOp{K: "wait", WaitMs: rapid.SampledFrom([]int{200, 900, 1800}).Draw(t, "w0")})
+	n := rapid.IntRange(2, 10).Draw(t, "nOps")
+	for i := 0; i < n; i++ {
+		x := rapid.IntRange(0, 2).Draw(t, "x")
+		y := (x + 1 + rapid.IntRange(0, 1).Draw(t, "dy")) % 3
+		k := rapid.SampledFrom([]string{"cut", "cut", "disconnect", "cancel", "unregister", "register", "disappear", "appear", "wait"}).Draw(t, "op")
+		sc.Ops = append(sc.Ops, HubOp{K: k, X: x, Y: y, WaitMs: rapid.SampledFrom([]int{0, 0, 30, 250, 700, 1500}).Draw(t, "wait"),
+			Conc: rapid.IntRange(0, 4).Draw(t, "conc") == 0})
+	}
+	sc.Ops = append(sc.Ops, HubOp{K: "wait", WaitMs: 1000})
 	return sc
 }
 
@@ -379,7 +431,7 @@ func runHubProperty(t *testing.T, prop string, gen func(*rapid.T) Scenario, judg
 
 func TestC05(t *testing.T)    { runHubProperty(t, "C05", genC05, judgeC05) }
 func TestC10(t *testing.T)    { runHubProperty(t, "C10", genC10, judgeC10) }
-func TestC11Hub(t *testing.T) { runHubProperty(t, "C11", genC10, judgeC11b) }
+func TestC11Hub(t *testing.T) { runHubProperty(t, "C11", genC11Hub, judgeC11b) }
 
 func replayScenario(raw json.RawMessage, judge func(Scenario) (string, string, bool)) (string, string) {
 	var sc Scenario
